@@ -5,6 +5,10 @@
    (nn_state.probability(., 1) = exp(-E_am)), Z (nn_state.normalization(space)).
    Rotations are the functions of Unitaries.v (rotate_psi, inner_prod1 =
    rotate_psi_inner_prod per outcome, rho_prob1 = rotate_rho_probs per outcome).
+   Unitary dictionary: the letters X, Y, Z always denote the default matrices of create_dict()
+   (Unitaries.lookup); [user] only carries added unitaries.  A state without a unitary_dict
+   (PositiveWaveFunction) therefore rotates exactly like one carrying the default dictionary, which is what
+   rotate_psi / _rotate_basis_state do since /repo c22f10c (fallback to create_dict()).
    Every metric returns (value, result kind); the kind mirrors the Python type produced by
    the code path taken (.item() / float arithmetic / numpy.float64 -> PlainNumber). *)
 From Coq Require Import List ZArith Bool Arith.
